@@ -340,7 +340,7 @@ func renderSafe(files map[string]string, cfg map[string]any) (res pkgw.RenderRes
 
 func runPackages(o checks.Opts) *report.Report {
 	rep := report.New("C19", "package-pipeline")
-	rep.Rule = "package file sets through the real load -> validate -> render -> phase collection pipeline under recover(): object annotation values (condition-map, collision-protection, phase, CEL condition) from a list incl. malformed ones; path shapes (empty name, components/x, components//y, leading dot, double template suffix, deep nesting); manifest shapes (no spec, duplicate phases, empty phase name, no phases, wrong kind, list instead of map); config shapes against an integer schema; 11 recursion shapes of helper templates inline and in _helpers.gotmpl; CEL expressions (statically bool / non-bool / dynamically typed, compile and run-time errors) at the condition annotation, named manifest conditions, path conditions and the template cel function x 3 configs; distinct = outcome class"
+	rep.Rule = "package file sets through the real load -> validate -> render -> phase collection pipeline under recover(): object annotation values (condition-map, collision-protection, phase, CEL condition) from a list incl. malformed ones; path shapes (empty name, components/x, components//y, leading dot, double template suffix, deep nesting); the same with a multi-component manifest (incl. an entry named exactly 'components', as a tar directory header becomes); manifest shapes (no spec, duplicate phases, empty phase name, no phases, wrong kind, list instead of map); config shapes against an integer schema; 11 recursion shapes of helper templates inline and in _helpers.gotmpl; CEL expressions (statically bool / non-bool / dynamically typed, compile and run-time errors) at the condition annotation, named manifest conditions, path conditions and the template cel function x 3 configs; distinct = outcome class"
 	base := func() map[string]string {
 		return map[string]string{"manifest.yaml": pkgw.Manifest{Name: "app", Phases: []string{"p1", "p2"}, ConfigProps: map[string]string{"x": "integer"}}.YAML(),
 			"a.yaml": pkgw.WidgetYAML("Widget", "a", "p1", "1", nil)}
@@ -375,6 +375,21 @@ func runPackages(o checks.Opts) *report.Report {
 	for _, p := range []string{"", ".yaml", "components/x", "components//y.yaml", "components/c/manifest.yaml", ".hidden.yaml", "t.yaml.gotmpl.gotmpl", "a/b/c/d/e/f/g.yaml", "/abs.yaml", "../up.yaml", "dir/", "x.yml", "_h.yaml", "manifest.yml"} {
 		p := p
 		add(fmt.Sprintf("path %q", p), func(m map[string]string) { m[p] = pkgw.WidgetYAML("Widget", "pz", "p1", "1", nil) }, nil)
+	}
+	// the same path shapes under a multi-component manifest (components: {})
+	for _, pth := range []string{"components", "components/", "components/x", "components/x/", "components/x/manifest.yaml", "components//y.yaml", "components/x/y/z.yaml", "Components/x/manifest.yaml", "components.yaml", "components/x/manifest.yml"} {
+		pth := pth
+		add(fmt.Sprintf("multi-component package with path %q", pth), func(m map[string]string) {
+			m["manifest.yaml"] = pkgw.Manifest{Name: "app", Phases: []string{"p1", "p2"}, Components: true}.YAML()
+			content := pkgw.WidgetYAML("Widget", "pz", "p1", "1", nil)
+			if strings.HasSuffix(pth, "manifest.yaml") || strings.HasSuffix(pth, "manifest.yml") {
+				content = pkgw.Manifest{Name: "sub", Phases: []string{"p1"}}.YAML()
+			}
+			if pth == "components" || strings.HasSuffix(pth, "/") {
+				content = "" // what a tar directory header becomes in the importer: an empty entry
+			}
+			m[pth] = content
+		}, nil)
 	}
 	manifestsRaw := []string{
 		"", "null", "[]", "apiVersion: manifests.package-operator.run/v1alpha1\nkind: PackageManifest\n",
